@@ -36,7 +36,7 @@ pub const ENDINGS: [&str; 9] = [
 /// kind 6 has two flavours: after the invalid header the client closes, or (sel odd) stays connected and silent -
 /// the server must end the connection on its own and return the slot
 
-pub const RULE: &str = "proptest sequences of connection lifecycles against an in-process server with connection limit 1..4 (2-worker runtime, and current-thread runtime with 1..3 listener threads sharing the server on one port as in memcrsd's current-thread mode): Open steps (up to limit+3 connections open at once) and End steps ending a selected open connection by client close after a complete exchange, quit, quitq (the client then closes, or keeps its socket open after the server's end of stream, with or without a request pipelined behind the quit), close in the middle of a header, close in the middle of a body, abortive reset, protocol error (bad magic; the client then closes, or stays connected and silent), oversized item followed by close, or (for a connection still waiting) giving up; plus idle-timeout scenarios (server timeout 1 s) in which served connections are left idle or stalled inside a header, a body or an oversized body, and a scenario in which a waiting connection outlives the receive timeout while the served one stays busy. After EVERY step a noop is outstanding on every open connection and the slot model is checked: exactly min(limit, open) connections have been answered (waited for without a deadline as a correctness signal: a shortfall is re-confirmed after a second 5 s wait), never more than limit, and every unanswered open connection shows positive evidence of not being served - its 24 request bytes are still unread in the server-side receive queue (FIONREAD on the accepted socket or rx_queue in /proc/net/tcp) and stay so over a 40 ms grace. At the end all connections are closed, `limit` fresh ones must all be served and one more must not. non-trivial = more than `limit` connections were open at some point and at least 4 different ending kinds were used";
+pub const RULE: &str = "proptest sequences of connection lifecycles against an in-process server with connection limit 1..4 (2-worker runtime, and current-thread runtime with 1..3 listener threads sharing the server on one port as in memcrsd's current-thread mode): Open steps (up to limit+3 connections open at once) and End steps ending a selected open connection by client close after a complete exchange, quit, quitq (the client then closes, or keeps its socket open after the server's end of stream, with or without a request pipelined behind the quit), close in the middle of a header, close in the middle of a body, abortive reset, protocol error (bad magic; the client then closes, or stays connected and silent), oversized item followed by close, or (for a connection still waiting) giving up; plus idle-timeout scenarios (server timeout 1 s) in which served connections are left idle or stalled inside a header, a body (alone, or in the same write as a complete quiet request in front) or an oversized body, and a scenario in which a waiting connection outlives the receive timeout while the served one stays busy. After EVERY step a noop is outstanding on every open connection and the slot model is checked: exactly min(limit, open) connections have been answered (waited for without a deadline as a correctness signal: a shortfall is re-confirmed after a second 5 s wait), never more than limit, and every unanswered open connection shows positive evidence of not being served - its 24 request bytes are still unread in the server-side receive queue (FIONREAD on the accepted socket or rx_queue in /proc/net/tcp) and stay so over a 40 ms grace. At the end all connections are closed, `limit` fresh ones must all be served and one more must not. non-trivial = more than `limit` connections were open at some point and at least 4 different ending kinds were used";
 pub const ASSUME: &[&str] = &[
     "which waiting connection is served next is not asserted",
     "the 40 ms over-serve grace can only miss, never alarm; the under-serve wait alarms only if the machine stalls for 5 s twice",
@@ -299,12 +299,21 @@ pub fn run_case(case: &C17Case) -> CaseReport {
                 let id = w.open[idx].id;
                 let item_limit = w.item_limit;
                 let c = &mut w.open[idx];
+                // in every second stall flavour the truncated request arrives in the same write as a complete one
+                // in front of it (the server then starts waiting with bytes already in its buffer)
+                let lead: Vec<u8> = if (kind / 4) % 2 == 0 { wire::store(wire::SETQ, b"lead17", b"v", 0, 0, 9, 0).bytes() } else { vec![] };
                 match kind % 4 {
                     0 => {}
-                    1 => World::write_raw(c, &wire::simple(wire::NOOP, 2).bytes()[..11]),
+                    1 => {
+                        let mut b = lead.clone();
+                        b.extend_from_slice(&wire::simple(wire::NOOP, 2).bytes()[..11]);
+                        World::write_raw(c, &b)
+                    }
                     2 => {
                         let f = wire::store(wire::SET, b"k17", &[b'x'; 300], 0, 0, 3, 0).bytes();
-                        World::write_raw(c, &f[..150]);
+                        let mut b = lead.clone();
+                        b.extend_from_slice(&f[..150]);
+                        World::write_raw(c, &b);
                     }
                     _ => {
                         let mut f = wire::store(wire::SET, b"big17", &[], 0, 0, 5, 0);
